@@ -357,6 +357,9 @@ def decode_string_fix(data_raw: int, bit_offset: int, bit_length: int) -> str:
 def decode_string_lz(data_raw: int, bit_offset: int) -> str:
     data_raw = data_raw >> bit_offset
     byte_arr = data_raw.to_bytes((data_raw.bit_length() + 7) // 8, byteorder="little")
+    if not byte_arr:
+        # length byte 0 and nothing but zero bytes after it: an empty string
+        return ''
     str_len = byte_arr[0]
     byte_arr_str = byte_arr[1 : 1 + str_len]
     decoded_str = byte_arr_str.decode('utf-8', errors='ignore')
